@@ -167,6 +167,9 @@ def _run_property(prop, tier, seed, cfg, sdir, t0):
         run0, res0 = per_seed[0]
         for t in res0['tool']:
             tool.append('[%s] %s' % (unit, t))
+        for ts in res0.get('tool_scoped', []):
+            if prop in ts.get('tags', []):
+                tool.append('[%s] %s' % (unit, ts['msg']))
         failed_ids = {}
         for f in res0['failed']:
             failed_ids.setdefault(f['clause'], []).append(f)
